@@ -734,6 +734,11 @@ func ruleM6(c *Ctx, id string) {
 									return
 								}
 							}
+							// no bounding constant: the smaller of two values is at most each of them - judge both
+							for _, a := range cl.Call.Args {
+								walk(a, cur, from, to, d+1)
+							}
+							return
 						}
 					}
 					q := qkey(rv, cur.S, req)
